@@ -372,7 +372,7 @@ Lemma enc_loop_not_panic l : enc_loop l <> Panic.
 Proof.
   induction l as [|k r IH]; simpl; [discriminate|].
   destruct (seqb (kd_use k) "encryption"); [|exact IH].
-  destruct (first_cert k); discriminate.
+  destruct (first_cert k) as [c|]; [destruct (nonempty c)|]; discriminate.
 Qed.
 
 Lemma choose_cert_str_not_panic l : choose_cert_str l <> Panic.
@@ -847,7 +847,10 @@ Proof. vm_compute. reflexivity. Qed.
 Lemma enc_loop_spec l :
   enc_loop l = match first_enc l with
                | None => Ok ""
-               | Some k => match first_cert k with None => Err 30 | Some c => Ok c end
+               | Some k => match first_cert k with
+                           | None => Err 30
+                           | Some c => if nonempty c then Ok c else Err 30
+                           end
                end.
 Proof.
   unfold first_enc. induction l as [|k r IH]; simpl; [reflexivity|].
@@ -875,9 +878,7 @@ Proof.
   unfold enc_decision, enc_decision_decl, choose_cert_str, fallback_decision.
   rewrite enc_loop_spec, unspec_loop_spec.
   destruct (first_enc l) as [k|]; [destruct (first_cert k) as [c|]|]; cbn [bind]; try reflexivity.
-  - destruct (nonempty c) eqn:Ec; [rewrite Ec; reflexivity|].
-    destruct (first_unspec l) as [k'|] eqn:Eu; [|reflexivity].
-    rewrite (first_unspec_nonempty _ _ Eu). reflexivity.
+  - destruct (nonempty c) eqn:Ec; cbn [bind]; [rewrite ?Ec; cbn [bind]; rewrite ?Ec; reflexivity | reflexivity].
   - cbn [nonempty]. destruct (first_unspec l) as [k'|] eqn:Eu; [|reflexivity].
     rewrite (first_unspec_nonempty _ _ Eu). reflexivity.
 Qed.
@@ -886,15 +887,13 @@ Lemma of_cert_not_plain r : of_cert r <> Plain.
 Proof. destruct r; discriminate. Qed.
 
 (* plaintext exactly when no key is advertised; in particular a certificate that
-   does not decode, does not parse or carries a non-RSA key is an error, never
-   a reason to send the assertion in clear *)
+   is missing, empty, does not decode, does not parse or carries a non-RSA key
+   is an error, never a reason to send the assertion in clear *)
 Theorem enc_decision_plain_iff cp l : enc_decision cp l = Plain <-> advertises_key_b l = false.
 Proof.
   rewrite enc_decision_spec. unfold enc_decision_decl, advertises_key_b, fallback_decision.
   destruct (first_enc l) as [k|]; [destruct (first_cert k) as [c|]|]; cbn [orb].
-  - destruct (nonempty c); cbn [orb].
-    + split; [intro H; exfalso; exact (of_cert_not_plain _ H) | discriminate].
-    + destruct (first_unspec l); [split; [intro H; exfalso; exact (of_cert_not_plain _ H) | discriminate] | tauto].
+  - destruct (nonempty c); split; try discriminate. intro H. exfalso. exact (of_cert_not_plain _ H).
   - split; discriminate.
   - destruct (first_unspec l); [split; [intro H; exfalso; exact (of_cert_not_plain _ H) | discriminate] | tauto].
 Qed.
@@ -902,12 +901,13 @@ Qed.
 Theorem enc_decision_never_panics cp l : enc_decision cp l <> EncPanic.
 Proof. exact (enc_decision_not_panic cp l). Qed.
 
-(* an empty X509Certificate element in the (first) encryption descriptor silently
-   disables encryption, even when a later encryption descriptor carries a good key *)
-Example enc_empty_cert_is_plain :
+(* regression for fix F17: an empty X509Certificate element in the first encryption
+   descriptor is an error (it used to end in plaintext), also when a later
+   encryption descriptor carries a good key *)
+Example enc_empty_cert_is_error :
   enc_decision (fun _ => CertRsaKey 3)
     [ {| kd_use := "signing"; kd_certs := ["S"] |}; {| kd_use := "encryption"; kd_certs := [""] |};
-      {| kd_use := "encryption"; kd_certs := ["GOOD"] |} ] = Plain.
+      {| kd_use := "encryption"; kd_certs := ["GOOD"] |} ] = EncErr.
 Proof. reflexivity. Qed.
 
 Theorem respond_no_plaintext cfg cp rt rq s now tnow addr relay rnd action resp rl :
@@ -1013,8 +1013,9 @@ Theorem sp_metadata_registers sp cert id issue dest cp :
     get_acs_endpoint (sp_metadata sp cert) (sp_request sp id issue dest) = Some (0, 0, d, e) /\
     ep_location e = sp_acs sp /\ ep_binding e = post_binding /\
     In d (descriptors (sp_metadata sp cert)) /\
-    (sp_key sp = None -> enc_decision cp (kds d) = Plain) /\
-    (forall k, sp_key sp = Some k -> cert <> "" -> cp cert = CertRsaKey k -> enc_decision cp (kds d) = EncryptTo k).
+    (sp_key sp = None \/ sp_key_rsa sp = false -> enc_decision cp (kds d) = Plain) /\
+    (forall k, sp_key sp = Some k -> sp_key_rsa sp = true -> cert <> "" -> cp cert = CertRsaKey k ->
+               enc_decision cp (kds d) = EncryptTo k).
 Proof.
   eexists _, _. split; [|split; [|split; [|split; [|split]]]].
   - unfold get_acs_endpoint, sp_request, sp_metadata. cbn [rq_acs_index rq_acs_url descriptors nonempty].
@@ -1027,8 +1028,9 @@ Proof.
   - reflexivity.
   - reflexivity.
   - left. reflexivity.
-  - intro H. cbn [kds]. rewrite H. reflexivity.
-  - intros k H Hc Hcp. cbn [kds]. rewrite H. rewrite enc_decision_spec.
+  - intro H. cbn [kds]. destruct (sp_key sp) as [k|]; [|reflexivity].
+    destruct H as [H | H]; [discriminate|]. rewrite H. destruct (sp_signs sp); reflexivity.
+  - intros k H Hr Hc Hcp. cbn [kds]. rewrite H, Hr. rewrite enc_decision_spec.
     unfold enc_decision_decl, first_enc. cbn. apply nonempty_true_iff in Hc. rewrite Hc. rewrite Hcp. reflexivity.
 Qed.
 
@@ -1124,17 +1126,27 @@ Qed.
 Lemma list_eqb_refl' {A} (eq : A -> A -> bool) (H : forall x, eq x x = true) l : list_eqb eq l l = true.
 Proof. apply list_eqb_refl. exact H. Qed.
 
-(* the pipeline monitor holds of the model's own expectation *)
+(* the pipeline monitor holds of the model's own expectation for every clean
+   session (for a valid session that is not clean it does not: K4) *)
 Theorem c07_spec_of_model s :
+  session_clean s = true ->
   c07_spec {| c7_sess := s;
               c7_accepted := match c07_expect s with Some _ => true | None => false end;
               c7_nameid := match c07_expect s with Some (n, _) => n | None => "" end;
               c7_attrs := match c07_expect s with Some (_, l) => l | None => [] end |} = true.
 Proof.
-  unfold c07_spec. cbn [c7_sess c7_accepted c7_nameid c7_attrs].
-  destruct (session_clean s) eqn:Hc; [|reflexivity].
+  intro Hc. unfold c07_spec. cbn [c7_sess c7_accepted c7_nameid c7_attrs].
+  destruct (session_valid s); [|reflexivity].
   rewrite (roundtrip_bytes s Hc). cbn [andb]. rewrite seqb_refl, (list_eqb_refl _ attribute_eqb_refl). reflexivity.
 Qed.
+
+(* K4 in the model: a session of XML characters whose session index contains "]]>" is refused *)
+Example c07_cdata_end_refuted :
+  let s := {| ss_create := 0; ss_index := "a]]>b"; ss_nameid := "alice"; ss_nameid_format := ""; ss_subject_id := "";
+              ss_groups := []; ss_user_name := ""; ss_email := ""; ss_common_name := ""; ss_surname := "";
+              ss_given_name := ""; ss_scoped_aff := ""; ss_eppn := ""; ss_custom := [] |} in
+  session_valid s = true /\ c07_expect s = None.
+Proof. vm_compute. split; reflexivity. Qed.
 
 Example ex_roundtrip_hostile :
   c07_expect {| ss_create := 0; ss_index := "i"; ss_nameid := "a<b>&""c'" +++ String (chr 13) (String (chr 10) " ]]> ");
